@@ -49,6 +49,7 @@ type Report struct {
 	Yields         int
 	PointerKeyMaps []string
 	Broken         map[string][]string // packages that did not type-check (SkipBroken): path -> errors
+	GoStmts        []string            // `go` statements in the rewritten packages: concurrency the simulator does not schedule
 }
 
 const (
@@ -281,6 +282,17 @@ func rewriteFile(o Options, rep *Report, p *packages.Package, f *ast.File) (bool
 			case *ast.GenDecl:
 				doFunc("init", x)
 			}
+		}
+	}
+
+	for _, d := range f.Decls {
+		if fd, ok := d.(*ast.FuncDecl); ok && fd.Body != nil {
+			ast.Inspect(fd.Body, func(n ast.Node) bool {
+				if _, ok := n.(*ast.GoStmt); ok {
+					rep.GoStmts = append(rep.GoStmts, p.PkgPath+"."+funcName(fd))
+				}
+				return true
+			})
 		}
 	}
 
